@@ -284,6 +284,12 @@ def condforms():
         out.append(lad(['sym equ 5'], kw + ' sym', 1 if not neg else 2))
         out.append(lad(['sym set 5'], kw + ' sym', 1 if not neg else 2))
         out.append(lad(['sym:'], kw + ' sym', 1 if not neg else 2))
+        # a symbol is defined whatever the type of its value (string, float, register alias)
+        out.append(lad(['sym equ "text"'], kw + ' sym', 1 if not neg else 2))
+        out.append(lad(['sym set "text"'], kw + ' sym', 1 if not neg else 2))
+        out.append(lad(['sym equ 2.5'], kw + ' sym', 1 if not neg else 2))
+        out.append(lad(['sym set 2.5'], kw + ' sym', 1 if not neg else 2))
+        out.append(lad(['sym equ ""'], kw + ' sym', 1 if not neg else 2))
         out.append(lad([], kw + ' sym', 2 if not neg else 1))
         out.append(lad(['other equ 1'], kw + ' sym', 2 if not neg else 1))
     for neg, kw in ((0, 'ifused'), (1, 'ifnused')):
@@ -299,6 +305,9 @@ def condforms():
                  ('"a"<"b"', 1), ('"a"="b"', 2), ('"ab"="ab"', 1), ('(1=1)&&(2=3)', 2), ('(1=1)||(2=3)', 1), ('256', 1),
                  ('2147483647', 1), ('~~1', 2), ('~~0', 1)):
         out.append(lad([], 'if ' + e, w))
+    for pre, e, w in ((['s equ "text"'], 'defined(s)', 1), (['s set 2.5'], 'defined(s)', 1), (['s equ 5'], 'defined(s)', 1), ([], 'defined(s)', 2),
+                      (['s equ "text"'], '~~defined(s)', 2), (['s equ "text"'], 's="text"', 1), (['s equ 2.5'], 's>2.0', 1)):
+        out.append(lad(pre, 'if ' + e, w))
     # IFB / IFNB over every argument list of length 0..4 over {blank, non-blank}, through macro parameters
     for n in range(0, 5):
         for bits in itertools.product((0, 1), repeat=n):
